@@ -166,6 +166,19 @@ Theorem C17_wrapper_close_code_all_sessions : forall hr c mw rt cl fl rs e w,
 Proof. exact wrapper_close_session. Qed.
 Print Assumptions C17_wrapper_close_code_all_sessions.
 
+(* The "invalid close code" fallback, for EVERY session: when the scripts returned or failed
+   with anything but an HTTP error / status, a close the wrapper sends that the server rejects
+   with an "invalid close code" error is followed by another close attempt (with the fallback
+   code), unless it already carried the fallback. *)
+Theorem C17_wrapper_retries_after_invalid_close_code : forall hr c mw rt cl fl rs e w,
+  session true hr c true mw rt cl fl = (rs, e, w) ->
+  let '(rs0, e2, w2) := scripts_end true hr c mw rt cl fl in
+  e2 <> Stuck ->
+  exists l, trace w = trace w2 ++ l
+            /\ wrapper_retry_ok fallback_ws_error_code (fst (cause_of e2)) l = true.
+Proof. exact wrapper_retry_session. Qed.
+Print Assumptions C17_wrapper_retries_after_invalid_close_code.
+
 (* the harness classifies "unrouted" / "no responder" as causes 1 / 2: the same verdict as the
    HTTPError 404 / 405 the model raises for them *)
 Theorem C17_wrapper_cause_unrouted : forall c f o s l,
@@ -220,6 +233,15 @@ Theorem C17_spontaneous_disconnect_still_closes : forall hr c cl co (accepted : 
 Proof. exact spontaneous_disconnect_closes. Qed.
 Print Assumptions C17_spontaneous_disconnect_still_closes.
 
+(* A payload of the wrong type (send_text: anything that is not a str; send_data: anything
+   that is not bytes / bytearray / memoryview -- the harness sweeps int, bool, lists, tuples,
+   None, float, dict, objects with __bytes__ / __str__ ...) is rejected before anything
+   happens: the misuse table demands TypeError, and no send() call is made. *)
+Theorem C17_bad_payload_sends_nothing : forall f hr c o w r w',
+  payload_bad o = true -> run_op f hr c o w = (r, w') -> w' = w.
+Proof. exact bad_payload_sends_nothing. Qed.
+Print Assumptions C17_bad_payload_sends_nothing.
+
 (* The code as found (fixed = false): the server raises on the final websocket.close and a
    second websocket.close is sent; replayed on the implementation this was the finding
    (corpus/C17/close_send_failure.json). *)
@@ -266,4 +288,16 @@ Example C17_projection_example :
                      [M18.LPump; M18.LServer; M18.LPump; M18.LServer; M18.LPump] in
   rest_pc (M18.pump s) /\ proj_queue s = [CText 1 false] /\ proj_hand s = Some (CText 2 false)
   /\ proj_client s = [CText 3 false] /\ proj_flag s = None.
+Proof. vm_compute. repeat split; reflexivity. Qed.
+
+(* The server rejects the error close with "invalid close code" (Daphne / Autobahn style): the
+   wrapper falls back to 3011; the session is legal and the close codes are the documented ones. *)
+Example C17_invalid_close_code_fallback :
+  let c := mkCfg true true 2 1011 KExact in
+  let sc := [(OAccept SubNone HNone, false); (ORaise RGeneric, false)] in
+  let '(rs, e, w) := session true (fun _ => true) c true [] (Routed sc) [CDisc None false] [SOk; SInvalid] in
+  e = Returned /\ closes w = [EAccept None false; EClose 1011 true; EClose 3011 true]
+  /\ session_ok (trace w) e (handed w) = true
+  /\ wrapper_close_ok c fallback_ws_error_code 3000 4 0 (skipn 1 (trace w)) = true
+  /\ wrapper_retry_ok fallback_ws_error_code 4 (skipn 1 (trace w)) = true.
 Proof. vm_compute. repeat split; reflexivity. Qed.
